@@ -7,6 +7,54 @@ import "github.com/deepteams/webp/internal/verifapi"
 func VerifH_C05_Demux(n int) {
 	data := verifapi.Bytes("d", n)
 	verifapi.Bound("input bytes", n)
+	vCheckDemux(data, n)
+}
+
+// VerifH_C05_DemuxANMF: as VerifH_C05_Demux, but the input starts with a fixed skeleton that leads the
+// demuxer into its animation-frame parser - RIFF....WEBP, a VP8X chunk (flags, reserved bytes and
+// canvas symbolic), then "ANMF" with a symbolic size - followed by n arbitrary bytes (frame header and
+// sub-chunks). Sizes are symbolic, so truncated, overlong and inconsistent chunks are all included.
+func VerifH_C05_DemuxANMF(n int) {
+	var data []byte
+	data = append(data, 'R', 'I', 'F', 'F')
+	data = append(data, verifapi.Bytes("riff_size", 4)...)
+	data = append(data, 'W', 'E', 'B', 'P', 'V', 'P', '8', 'X', 10, 0, 0, 0)
+	data = append(data, verifapi.Bytes("vp8x", 10)...)
+	data = append(data, 'A', 'N', 'M', 'F')
+	data = append(data, verifapi.Bytes("anmf_size", 4)...)
+	data = append(data, verifapi.Bytes("d", n)...)
+	data = append([]byte(nil), data...)
+	data = data[:len(data):len(data)] // exact capacity, as a file read into memory
+	verifapi.Bound("arbitrary bytes after the ANMF header", n)
+	vCheckDemux(data, len(data))
+}
+
+// VerifH_C05_DemuxSubChunks: deeper into the frame parser - the skeleton of VerifH_C05_DemuxANMF, a
+// symbolic 16-byte frame header, a FIRST sub-chunk "ALPH" of a bytes (well formed, padded), then a second
+// sub-chunk whose fourcc and size are symbolic, followed by n arbitrary bytes; exact-capacity buffer.
+// (RIFF and ANMF sizes are the true ones here: inconsistent outer sizes are VerifH_C05_Demux/ANMF's subject.)
+func VerifH_C05_DemuxSubChunks(a, n int) {
+	var fr []byte
+	fr = append(fr, verifapi.Bytes("frame_header", 16)...)
+	fr = append(fr, 'A', 'L', 'P', 'H', byte(a), 0, 0, 0)
+	fr = append(fr, verifapi.Bytes("alph", a+a%2)...)
+	fr = append(fr, verifapi.Bytes("fourcc2", 4)...)
+	fr = append(fr, verifapi.Bytes("size2", 4)...)
+	fr = append(fr, verifapi.Bytes("d", n)...)
+	var data []byte
+	total := 4 + 18 + 8 + len(fr)
+	data = append(data, 'R', 'I', 'F', 'F', byte(total), byte(total>>8), 0, 0)
+	data = append(data, 'W', 'E', 'B', 'P', 'V', 'P', '8', 'X', 10, 0, 0, 0)
+	data = append(data, verifapi.Bytes("vp8x", 10)...)
+	data = append(data, 'A', 'N', 'M', 'F', byte(len(fr)), byte(len(fr)>>8), 0, 0)
+	data = append(data, fr...)
+	data = append([]byte(nil), data...)
+	data = data[:len(data):len(data)] // exact capacity, as a file read into memory
+	verifapi.Bound("arbitrary bytes after the second sub-chunk header", n)
+	vCheckDemux(data, len(data))
+}
+
+func vCheckDemux(data []byte, n int) {
 	d, err := NewDemuxer(data)
 	if err != nil {
 		verifapi.Assert(d == nil, "error result carries no demuxer")
